@@ -46,7 +46,8 @@ class SGen:
         return ["vali", self.r.choice([0, 1, 2, 3, 5, 7, 10] + ([-1, -2] if neg_ok else [])), None]
 
     def str_lit(self):
-        return ["vals", self.r.choice(["x", "abc", "it's", "b", "%x_", "", "--c", "/*x*/"]), None]
+        return ["vals", self.r.choice(["x", "abc", "it's", "b", "%x_", "", "--c", "/*x*/", "{name}", "{{name}}", "{", "}", "{}", "{0}",
+                                       "{name}", "{{name}}"]), None]
 
     # ------------------------------------------------------------------ expressions
     def num(self, srcs, d, ub, neg_ok=True):
@@ -95,6 +96,9 @@ class SGen:
             if self.r.random() < 0.25:
                 f = self.field(srcs, "str", ub)
                 if f is not None:
+                    if self.r.random() < 0.2:
+                        return ["in", f, ["tuple", [self.str_lit() for _ in range(self.r.choice([0, 1, 2, 3]))], None],
+                                self.r.random() < 0.3, None]
                     if self.r.random() < 0.4:
                         return ["basic", self.r.choice(["like", "not_like"]), f, ["vals", self.r.choice(["x%", "%b%", "it's", "_b_"]), None], None]
                     return ["basic", self.r.choice(["eq", "ne", "lt", "gte"]), f, self.strx(srcs, ub), None]
@@ -112,7 +116,7 @@ class SGen:
         if r < 0.82:
             f = self.field(srcs, "int", ub) or self.int_lit()
             return ["in", f, ["tuple", [self.int_lit() if self.r.random() < 0.85 else ["null", None]
-                                       for _ in range(self.r.choice([1, 2, 3]))], None], self.r.random() < 0.3, None]
+                                       for _ in range(self.r.choice([0, 1, 2, 2, 3]))], None], self.r.random() < 0.3, None]
         if r < 0.9:
             f = self.field(srcs, "int", ub) or self.int_lit()
             return ["between", f, self.int_lit(), self.int_lit(), None]
